@@ -313,6 +313,8 @@ class DAGNode:
         """
         if ASSERTIONS:
             self.__check_children_type(new_children)
+        new_children = list(new_children)
+        if ASSERTIONS:
             self.__check_children_loop(new_children)
 
         current_children = list(self.children)
